@@ -101,6 +101,8 @@ struct Ev {
     seq: u32,
     /// Shorter than one message: the driver reports an error (vsock) or nothing (sound).
     undecodable: bool,
+    /// The device reports more bytes written than the buffer holds.
+    overstated: bool,
 }
 
 fn event_bytes(which: Which, seq: u32, lenc: usize) -> Vec<u8> {
@@ -215,10 +217,14 @@ impl TransportVisitor for V {
                 }
                 let j = decide(linear, posted, "which posted buffer the device uses (default: oldest)");
                 let lenc = match which {
-                    Which::VsockRx | Which::VsockRxLarge => decide(linear, 5, "written length (default: full)"),
-                    Which::Sound => decide(linear, 3, "written length (default: full)"),
-                    Which::Input => 0,
+                    Which::VsockRx | Which::VsockRxLarge => decide(linear, 6, "written length (default: full)"),
+                    Which::Sound => decide(linear, 4, "written length (default: full)"),
+                    Which::Input => decide(linear, 2, "written length (default: full)"),
                 };
+                // The last alternative of each: the full event, reported with a used length
+                // beyond the buffer's size.
+                let overstated = matches!((which, lenc), (Which::VsockRx | Which::VsockRxLarge, 5) | (Which::Sound, 3) | (Which::Input, 1));
+                let lenc = if overstated { 0 } else { lenc };
                 seq += 1;
                 let is_vsock = matches!(which, Which::VsockRx | Which::VsockRxLarge);
                 let mut bytes = event_bytes(which, seq, if is_vsock { lenc.min(2) } else { 0 });
@@ -248,8 +254,9 @@ impl TransportVisitor for V {
                 if bytes.len() > cap {
                     viol("buffer-too-small", format!("posted buffer holds {} bytes, the event needs {}", cap, bytes.len()));
                 }
-                co.borrow_mut().complete_held(q, j, &bytes, bytes.len() as u32);
-                pending.push_back(Ev { token, bytes, seq, undecodable });
+                let used_len = if overstated { cap as u32 + 1 + (seq % 3) * 29 } else { bytes.len() as u32 };
+                co.borrow_mut().complete_held(q, j, &bytes, used_len);
+                pending.push_back(Ev { token, bytes, seq, undecodable, overstated });
                 delivered += 1;
             }
             // The driver polls until nothing is left, plus once more.
@@ -288,6 +295,10 @@ impl TransportVisitor for V {
                 };
                 tag(if expect.is_some() { "poll:event" } else { "poll:empty" });
                 match (&got, &expect) {
+                    // An overstated length: an error, nothing, or the event (never more than the buffer).
+                    (Err(_), Some(e)) if e.overstated => {}
+                    (Ok(None), Some(e)) if e.overstated => {}
+                    (Ok(Some(b)), Some(e)) if e.overstated && b.len() <= e.bytes.len().max(8) + 2048 && b.starts_with(&e.bytes[..e.bytes.len().min(b.len())]) => {}
                     (Err(_), Some(e)) if e.undecodable && matches!(which, Which::VsockRx | Which::VsockRxLarge) => {}
                     (Ok(None), Some(e)) if e.undecodable && which == Which::Sound => {}
                     (Ok(Some(b)), Some(e)) if *b == e.bytes && !e.undecodable => {}
